@@ -16,8 +16,14 @@ def main(argv=None):
         return replay.main(a.replay)
     if not a.prop:
         ap.error('property id required')
-    mod = importlib.import_module(f'mosmc.props.{a.prop.lower()}')
-    return mod.run(a.tier)
+    try:
+        mod = importlib.import_module(f'mosmc.props.{a.prop.lower()}')
+        return mod.run(a.tier)
+    except Exception:  # noqa - a crash of the machinery is a harness error (exit 3), never a violation (exit 1)
+        import traceback
+        traceback.print_exc()
+        print(f'HARNESS-ERROR {a.prop}: the check itself failed (see traceback)')
+        return 3
 
 
 if __name__ == '__main__':
